@@ -1065,6 +1065,26 @@ def adversarial(n):
     ]
 
 
+def long_tokens():
+    """valid statements with ONE very long token (around the 4300-digit limit of int() in Python >= 3.11 and well
+    beyond): integer and real literals, identifiers, strings, ticked phrases, comments; (name, text)"""
+    out = []
+    for n in (100, 640, 4299, 4300, 4301, 5000):
+        out.append(('long-integer-%d' % n, 'x = %s;' % ('1' + '0' * (n - 1))))
+        out.append(('long-integer-nines-%d' % n, 'x = 1 + %s;' % ('9' * n)))
+    for n in (4301, 5500):
+        out.append(('long-integer-in-call-%d' % n, '::f(a: %s); return %s;' % ('7' * n, '3' * n)))
+        out.append(('long-real-%d' % n, 'x = %s.%s;' % ('1' * n, '5' * 20)))
+        out.append(('long-real-fraction-%d' % n, 'x = 0.%s;' % ('3' * n)))
+        out.append(('long-real-exponent-%d' % n, 'x = 1.0e%s;' % ('9' * n)))
+        out.append(('long-identifier-%d' % n, '%s = 1; y = %s;' % ('a' * n, 'a' * n)))
+        out.append(('long-string-%d' % n, 'x = "%s";' % ('s' * n)))
+        out.append(('long-phrase-%d' % n, "select one a related by self->A[R1.'%s'];" % ('p' * n)))
+        out.append(('long-comment-%d' % n, 'x = 1; /*%s*/ y = 2;' % ('c' * n)))
+        out.append(('long-enumerator-%d' % n, 'x = %s::%s;' % ('e' * n, 'v' * n)))
+    return out
+
+
 # --------------------------------------------------------------------------------------- lexical units (tight layout)
 
 LIT_INDEXES = [11, 12, 13, 14, 15, 16, 17, 18, 19, 20, 21, 22, 23, 24, 25, 26, 27, 28, 29, 30, 31, 32, 34, 35, 36]
@@ -1727,7 +1747,32 @@ class ExecGen(Gen):
             else:
                 self.bool_expr(1)
             self.kw(op)
+            if r.random() < 0.4:
+                # a keyword UNARY operator over the side-effecting call: the operand must be evaluated exactly once
+                # however the operator is spelled
+                self.kw('not')
+                if r.random() < 0.3:
+                    self.kw('not')
+                self.p.count('x-effect-under-not')
             self.effect_call()
+        if r.random() < 0.25:
+            # v = not ::spawn();  - the unary operation is the whole right-hand side
+            v = self.name('f')
+            self.idt(v)
+            self.pn('EQUAL')
+            self.kw('not')
+            self.effect_call()
+            self.end()
+            self.kw('if')
+            self.pn('LPAREN')
+            self.kw('not')
+            self.idt(v)
+            self.pn('RPAREN')
+            self.x_acc()
+            self.end_tok('if')
+            self.end()
+            self.p.count('x-effect-not')
+            return
         if r.random() < 0.5:
             v = self.name('f')
             self.idt(v)
